@@ -26,7 +26,7 @@ THEOREMS = ["Tx3.Peg.engine_inv", "Tx3.Front.C19_pairs_within_input", "Tx3.Front
 RULE = (
     "cases = C12's generators (reproduced failures, corpus, literal probes, grammar expansions, token-level mutations, "
     "nesting): about a third of the texts fail to parse, at positions on every line and column of multi-line inputs, "
-    "with multi-byte characters in strings and comments before the error; about a quarter parse and fail analysis. "
+    "with multi-byte characters in strings and comments before the error; about a quarter parse and fail analysis; for every diagnostic the first label handed out by miette::Diagnostic::labels() and whether source_code().read_span() can read it. "
     "Non-trivial = every case; distinct = distinct source text"
 )
 ASSUMPTIONS = ["miette's rendering is not run; the clause checked is the one it needs (label inside the source, on character boundaries)"]
